@@ -50,6 +50,7 @@ fn main() {
         let code = match id.as_str() {
             "C02" => props::c02::replay(case),
             "C03" => props::c03::replay(case),
+            "C04" => props::c04::replay(case),
             "C08" => props::c08::replay(case),
             "C09" => props::c09::replay(case),
             "C10" => props::c10::replay(case),
@@ -70,6 +71,7 @@ fn main() {
     let code = match id.as_str() {
         "C02" => props::c02::run(tier),
         "C03" => props::c03::run(tier),
+        "C04" => props::c04::run(tier),
         "C08" => props::c08::run(tier),
         "C09" => props::c09::run(tier),
         "C10" => props::c10::run(tier),
